@@ -661,6 +661,19 @@ def atoms_at(body, b):
                 _ATOMS_DEPTH[0] -= 1
             for c in terms or ():
                 out.append((c, True, g))
+        if pol is True and isinstance(t, tuple) and t and t[0] == 'call' and len(t[2]) == 2 and last_seg(t[1]) in ('is_some_and', 'is_ok_and') and \
+                _ATOMS_DEPTH[0] < 3:
+            # x.is_some_and(p)  ==>  x is Some  and  p(payload of x)
+            _ATOMS_DEPTH[0] += 1
+            try:
+                from .seq import apply_fn
+                x = t[2][0]
+                out.append((('call', 'std::option::Option::is_some', (x,)), True, g))
+                out.append((nosite(apply_fn(body.facts, t[2][1], (('unwrap', x),))), True, g))
+            except Exception:
+                pass
+            finally:
+                _ATOMS_DEPTH[0] -= 1
     return out
 
 
